@@ -5,6 +5,17 @@ import os
 import vlib
 
 
+MANIFEST = dict(
+    text=("Coq theorems (offset range/bijection/injectivity, sub-tensor/vector/matrix views, slices, reshape with one "
+          "inferred dimension, gather) about an executable model whose arithmetic steps are regenerated from "
+          "dims.h/tensor.h on every run by tools/translate.py; the extracted model is compared with the real tensor "
+          "classes (ASan+UBSan) on an exhaustive enumeration of small shapes and random large ones. Summed-area table "
+          "and storage conversions are searched, not proved."),
+    note=("Coq kernel; translator (13 kernels); extraction (ExtrOcamlBasic); harness + OCaml driver; NDEBUG build: only "
+          "valid accesses explored; Eigen Map/vector storage modelled as a flat list."),
+    technique="Coq proof over a translated+extracted model, exhaustive differential correspondence",
+    design="DESIGN.md section 2, C16")
+
 VARIANTS = []  # header-only: no library build needed
 
 
@@ -27,7 +38,10 @@ def run(tier, replay=None):
     crashed = rc != 0 or not done
     if crashed:
         r.violation("crash", {"kind": "implementation-crash (sanitizer report / signal) during a valid access",
-                              "exit": rc, "mode": tier, "last_output": lines[-40:]}, fingerprint="crash")
+                              "exit": rc, "mode": tier,
+                              "last_operations": [l for l in lines if l.split(" ", 1)[0].isupper() and not l.startswith("==")][-5:],
+                              "sanitizer": [l for l in lines if "ERROR:" in l or "SUMMARY:" in l or " in nano::" in l][:12],
+                              "replay_cmd": "VERIF_SEED=%d %s %s" % (r.seed, exe, tier)}, fingerprint="crash")
     for l in impl_fail[:3]:
         r.violation("impl-%d" % (impl_fail.index(l)), {"kind": "direct property check failed on the implementation",
                                                        "case": l, "replay_cmd": "%s %s | grep FAIL" % (exe, tier)})
